@@ -11,6 +11,7 @@
 
 mod cancel;
 mod sasl;
+mod txn;
 mod codec;
 mod common;
 mod connlife;
@@ -87,6 +88,7 @@ fn main() {
         "ids" => ids::main(&opts),
         "cancel" => cancel::main(&opts),
         "sasl" => sasl::main(&opts),
+        "txn" => txn::main(&opts),
         "failprop" => failprop::main(&opts),
         "hostile" => hostile::main(&opts),
         "limits" => limits::main(&opts),
